@@ -98,6 +98,15 @@ CHECKS = {
         "Bound: the member / head tables in vf/props/c03.py; sequences <=3 (quick) / 4 (thorough) as cross-check. Lexing in the inductive step is a token replay (stub lexer). Trusted: CrossHair, z3, the expected-object builders.",
         "DESIGN.md 3/C03",
     ),
+    "C13": (
+        "model_checking",
+        "CrossHair (z3) exhaustive exploration of region x bracket-balanced token soups (grammar-generated) on the real parser; oracle: result identical to the empty-region parse, including the declarations that follow",
+        "For each of 14 skippable regions (function / method / constructor / operator / template bodies, ctor-initializer arguments, [[ ]] / __attribute__ / __declspec / alignas arguments, static_assert) every "
+        "bracket-balanced soup inside the bound is parsed by the real parser; 'Confirmed over all paths' per shard = the bounded soup space was exhausted.",
+        "Bound: quick = 17 atoms + 3 bracket kinds up to 2 tokens and a 6-atom core alphabet (incl. '<', '>', a string literal full of brackets) up to 4 tokens; thorough = 3 and 6 tokens. Tokens are blank-separated. "
+        "D15 (angle-bracket heuristic of _consume_balanced_tokens) is a known finding matched by class (failure disappears when '<' '>' are removed).",
+        "DESIGN.md 3/C13",
+    ),
 }
 
 NOT_YET = "no check landed yet in this build (planned engine and bounds: DESIGN.md section 3); not claimed until the check runs green"
